@@ -61,12 +61,119 @@ let sink_op_of tok =
   | _ -> failwith ("bad sink op " ^ tok)
 let optz_str = function None -> "n" | Some v -> Printf.sprintf "s,%d" (int_of_z v)
 
+(* ---- sim benches: prefix token stream (grammar in tools/simcase.py) ---- *)
+let toks : string list ref = ref []
+let next () = match !toks with t :: r -> toks := r; t | [] -> failwith "unexpected end of case"
+let nint () = ios (next ())
+let nnat () = nat_of_int (nint ())
+let nz () = z_of_int (nint ())
+let nopt_nat () = let i = nint () in if i < 0 then None else Some (nat_of_int i)
+let nopt_z () = let i = nint () in if i < 0 then None else Some (z_of_int i)
+let expect s = let t = next () in if t <> s then failwith ("expected " ^ s ^ " got " ^ t)
+let rec rep n f = if n <= 0 then [] else let x = f () in x :: rep (n - 1) f
+let plist f = let n = nint () in rep n f
+let p_keep () = match next () with
+  | "all" -> KAll | "even" -> KEven | "lt" -> KLt (nz ()) | t -> failwith ("keep " ^ t)
+let p_tgt () = match next () with
+  | "m" -> let m = nnat () in let i = nnat () in TgtModel (m, i)
+  | "s" -> TgtSink (nnat ()) | t -> failwith ("tgt " ^ t)
+let p_conn () = let k = p_keep () in let a = nz () in let t = p_tgt () in { ckeep = k; cadd = a; ctgt = t }
+let p_qconn () = let k = p_keep () in let a = nz () in let m = nnat () in let r = nnat () in let ra = nz () in
+  { qkeep = k; qadd = a; qmodel = m; qrep = r; qradd = ra }
+let p_expr () = match next () with
+  | "in" -> EIn | "c" -> EConst (nz ()) | "ip" -> EInPlus (nz ()) | t -> failwith ("expr " ^ t)
+let p_dl () = match next () with
+  | "a" -> DAbs (nz ()) | "r" -> DRel (nz ()) | t -> failwith ("dl " ^ t)
+let p_op () = match next () with
+  | "snd" -> let p = nnat () in let e = p_expr () in OSend (p, e)
+  | "qry" -> let p = nnat () in let e = p_expr () in OQuery (p, e)
+  | "sch" -> let d = p_dl () in let i = nnat () in let e = p_expr () in let sl = nopt_nat () in let pe = nopt_z () in
+      OSched (d, i, e, sl, pe)
+  | "can" -> OCancel (nnat ())
+  | "pan" -> OPanic (nz ())
+  | t -> failwith ("op " ^ t)
+let p_script () = plist p_op
+let p_model () =
+  let cap = nnat () in
+  let place = (match nint () with 0 -> Added | 1 -> Orphan | _ -> Dropped) in
+  let parent = nopt_nat () in
+  let named = (nint () = 1) in
+  let init = p_script () in
+  expect "H"; let hs = plist p_script in
+  expect "R"; let rs = plist (fun () -> let sc = p_script () in let c = nz () in (sc, c)) in
+  expect "O"; let os = plist (fun () -> plist p_conn) in
+  expect "Q"; let qs = plist (fun () -> plist p_qconn) in
+  { mcap = cap; mplace = place; mparent = parent; mnamed = named; minit = init; mhandlers = hs;
+    mrepliers = rs; mouts = os; mreqs = qs }
+let p_cmd () = match next () with
+  | "se" -> let d = p_dl () in let m = nnat () in let i = nnat () in let v = nz () in
+      let sl = nopt_nat () in let pe = nopt_z () in CSchedEvent (d, m, i, v, sl, pe)
+  | "ss" -> let d = p_dl () in let src = nnat () in let v = nz () in
+      let sl = nopt_nat () in let pe = nopt_z () in CSchedSrc (d, src, v, sl, pe)
+  | "cn" -> CCancel (nnat ())
+  | "st" -> CStep
+  | "su" -> CStepUntil (p_dl ())
+  | "pe" -> let m = nnat () in let i = nnat () in let v = nz () in CProcEvent (m, i, v)
+  | "pq" -> let m = nnat () in let r = nnat () in let v = nz () in CProcQuery (m, r, v)
+  | "ps" -> let src = nnat () in let v = nz () in CProcSrc (src, v)
+  | "rs" -> CReadSink (nnat ())
+  | "so" -> let k = nnat () in let o = (nint () = 1) in CSinkOpen (k, o)
+  | t -> failwith ("cmd " ^ t)
+
+let name_str (l : nat option list) =
+  String.concat "." (List.map (function Some m -> string_of_int (int_of_nat m) | None -> "?") l)
+let zs v = string_of_int (int_of_z v)
+let ns v = string_of_int (int_of_nat v)
+let res_str = function
+  | ROk -> "ok" | RTerminated -> "term"
+  | RDeadlock l -> "dead:" ^ String.concat "," (List.map (fun (n, k) -> name_str n ^ "=" ^ ns k) l)
+  | RMessageLoss n -> "loss:" ^ zs n
+  | RNoRecipient None -> "norecip:-"
+  | RNoRecipient (Some n) -> "norecip:" ^ name_str n
+  | RPanic (n, c) -> "panic:" ^ name_str n ^ ":" ^ zs c
+  | ROutOfSync l -> "oos:" ^ zs l
+  | RBadQuery -> "badq"
+  | RInvalidDeadline t -> "invdl:" ^ zs t
+  | RSched c -> "sched:" ^ string_of_int (int_of_n c)
+  | RReply v -> "reply:" ^ zs v
+  | RSink l -> "sink:" ^ String.concat "," (List.map zs l)
+  | RHang -> "hang" | RFuel -> "fuel"
+let entry_str = function
+  | EInit (m, t) -> Printf.sprintf "I:%s:%s" (ns m) (zs t)
+  | EHandler (m, i, v, t) -> Printf.sprintf "H:%s:%s:%s:%s" (ns m) (ns i) (zs v) (zs t)
+  | EReplier (m, r, v, t) -> Printf.sprintf "P:%s:%s:%s:%s" (ns m) (ns r) (zs v) (zs t)
+  | EReplies (m, rs) -> Printf.sprintf "Y:%s:%s" (ns m) (String.concat "," (List.map zs rs))
+  | ESched (m, c) -> Printf.sprintf "X:%s:%d" (match m with Some m -> ns m | None -> "-") (int_of_n c)
+  | EClock t -> "K:" ^ zs t
+  | ETime t -> "T:" ^ zs t
+let obs_str o =
+  Printf.sprintf "%s @%s [%s] nd=%d" (res_str o.ores) (zs o.otime)
+    (String.concat " " (List.map entry_str o.olog)) (if o.ondet then 1 else 0)
+
+let run_sim ws =
+  toks := ws;
+  let _threads = nint () in
+  let fuel = nint () in
+  let t0 = nz () in
+  let tol = nopt_z () in
+  let b1 = (nint () = 1) in let b2 = (nint () = 1) in let b3 = (nint () = 1) in let b4 = (nint () = 1) in
+  expect "M"; let ms = plist p_model in
+  expect "S"; let ss = plist (fun () -> let k = nint () in let c = nnat () in if k = 0 then SpecBuf c else SpecSlot) in
+  expect "E"; let es = plist (fun () -> plist p_conn) in
+  expect "K"; let ks = plist nopt_z in
+  expect "I"; let ich = plist nnat in
+  expect "C"; let cs = plist (fun () -> let c = p_cmd () in let ch = plist nnat in (c, ch)) in
+  let b = { bmodels = ms; bsinks = ss; bsources = es; bclock = ks; btol = tol; bt0 = t0;
+            bugF1 = b1; bugF2 = b2; bugF3 = b3; bugF4 = b4 } in
+  String.concat " | " (List.map obs_str (sim_exec b (nat_of_int fuel) ich cs))
+
 let run_case line =
   match words line with
   | "pq" :: ops ->
       String.concat " " (List.map pq_res_str (x_pq_run (List.map pq_op_of ops)))
   | "ipq" :: ops ->
       String.concat " " (List.map ipq_res_str (x_ipq_run (List.map ipq_op_of ops)))
+  | "sim" :: ws -> run_sim ws
   | "ebuf" :: cap :: o :: ops ->
       String.concat " " (List.map optz_str
         (x_ebuf_run (nat_of_int (ios cap)) (bool_of o) (List.map sink_op_of ops)))
